@@ -1022,6 +1022,17 @@ class FT:
                 cargs.append(out_arg(a, pos))
             else:
                 cargs.append(self.tr(a, env, pre))
+        # value semantics are only right if no out-argument aliases another argument of the same call
+        out_ids = set(i for i, _ in outs)
+        nodes = list(args) + ([obj] if obj is not None else [])
+        for a in nodes:
+            if strip(a).get('kind') in ('DeclRefExpr', 'CXXThisExpr') and self.var_of(a, env) in out_ids:
+                continue        # the out-argument itself (distinctness of out-arguments is checked above)
+            for x in find_kinds(a, ('DeclRefExpr', 'CXXThisExpr')):
+                r = self.var_of(x, env)
+                if r in out_ids:
+                    raise Unsupported('out-argument `%s` of `%s` also occurs in another argument (aliasing)' %
+                                      (env.vars[r].name, ti.name))
         shape = (['thr'] if ti.may_throw else []) + (['ret'] if ti.ret.kind != 'void' else []) + \
             [('out', i, pos) for i, pos in outs]
         return App(ti.name, cargs, None), shape
